@@ -267,7 +267,7 @@ def find_roots(arch, recs, obs, index):
     bad = {}
     for i, rec in enumerate(recs):
         o = obs.get(i)
-        if o is None:
+        if o is None or o.get("err"):          # not observed: counted by the caller, never a verdict
             continue
         p = judge(arch, rec, o)
         if p:
@@ -557,7 +557,8 @@ def check(chk):
              "zz_verif_c08_sizes_test.go": sizes_file()}
     pool = ThreadPoolExecutor(max_workers=4)
     f_bin = pool.submit(C.gotest_compile_injected, "ssa", files, rd, "", True, 1500)
-    f_llgo = pool.submit(C.llgo_binary) if os.environ.get("VERIF_C08_E2E") != "0" else None
+    if os.environ.get("VERIF_C08_E2E") != "0":
+        pool.submit(C.llgo_binary)          # started early; the end-to-end builds wait for it under its own lock
     cfg = "layout_thorough.cfg" if thorough else "layout_quick.cfg"
     res = C.tlc(SPEC, "Layout", cfg, rd, timeout=2400, parse_json=False, tlc_seed=C.seed())
     if not res.ok:
@@ -586,8 +587,6 @@ def check(chk):
     pick = set(leaves) | set(rng.sample(range(len(recs)), min(n_e2e, len(recs))))
     pick |= set(index[tkey(t)] for t in sentinels if tkey(t) in index)
     e2e_idx = closure(recs, index, pick)
-    if os.environ.get("VERIF_C08_E2E") != "0":
-        f_llgo.result()
     if os.environ.get("VERIF_C08_E2E") == "0":      # development aid (mutation testing of the in-process part only)
         e2e_idx = []
     batches = [e2e_idx[k:k + 400] for k in range(0, len(e2e_idx), 400)]
@@ -604,7 +603,9 @@ def check(chk):
     wrong["L"][0][0] += 1
     wrong["L"][1][0] += 1
     o64 = results[HOST][1][ki]
-    tags = lambda probs: set(t for t, _ in probs)
+    def tags(probs):
+        return set(t for t, _ in probs)
+
     if not (tags(judge(HOST, wrong, o64)) - tags(judge(HOST, recs[ki], o64))) & {"spec(a)", "spec(b)", "spec(c)"}:
         raise C.Undecided("negative control: a wrong expected size for struct{int8; int64} was not flagged")
     oarm = json.loads(json.dumps(results["arm64"][1][ki]))
@@ -652,8 +653,7 @@ def check(chk):
         fits[arch]["minimal"] = len(roots)
         groups = {}
         for i, probs in roots:
-            tags = key_tags(probs)
-            key = "layout:%s:%s:%s" % (arch, root_class(recs[i]["t"]), tags)
+            key = "layout:%s:%s:%s" % (arch, root_class(recs[i]["t"]), key_tags(probs))
             groups.setdefault(key, []).append((i, probs))
         for key, items in sorted(groups.items()):
             i, probs = items[0]
@@ -736,6 +736,8 @@ def check(chk):
     chk.cov["end_to_end_disagreeing"] = len(bad)
     chk.cov["end_to_end_compiler_failures"] = e2e_failures[:10]
     chk.cov["harness_errors"] = nerr
+    chk.sample({"negative_control": "struct{int8; int64} with expected size %d instead of %d must be flagged" % (wrong["L"][0][0], recs[ki]["L"][0][0]),
+                "observed_amd64": {k: o64.get(k) for k in "abc"}})
     mid = recs[len(recs) // 2]
     chk.sample({"term": show(mid["t"]), "spec": dict(zip(PROFILES, mid["L"])),
                 "observed": {a: {k: results[a][1][len(recs) // 2].get(k) for k in "abc"} for _, a in TARGETS}})
